@@ -35,6 +35,23 @@ pub fn eb_u8() -> Vec<(&'static str, Expr)> {
         ("{m=m/n;m}", block(vec![assign("m", vec![], bin(BinOp::Div, m(), n())), expr_stmt(m())])),
         ("{a[1]=n;a[0]}", block(vec![assign("a", vec![Acc::Index(us(1))], n()), expr_stmt(index(var("a"), us(0)))])),
         ("{a[i]}", block(vec![expr_stmt(index(var("a"), var("i")))])),
+        // effects carried by something that is not a plain block: an if / a match whose branches assign,
+        // an operator whose operand is an effect block
+        (
+            "if b{n=n+1;n}else{m^=5;m}",
+            if_(var("b"), vec![assign("n", vec![], bin(BinOp::Add, n(), u8l(1))), expr_stmt(n())], Some(vec![op_assign("m", vec![], BinOp::BitXor, u8l(5)), expr_stmt(m())])),
+        ),
+        (
+            "match b{true=>{n^=3;m},false=>{m=m+1;n}}",
+            match_(
+                var("b"),
+                vec![
+                    (Pat::Bool(true), block(vec![op_assign("n", vec![], BinOp::BitXor, u8l(3)), expr_stmt(m())])),
+                    (Pat::Bool(false), block(vec![assign("m", vec![], bin(BinOp::Add, m(), u8l(1))), expr_stmt(n())])),
+                ],
+            ),
+        ),
+        ("{n=n+1;n}^1", bin(BinOp::BitXor, block(vec![assign("n", vec![], bin(BinOp::Add, n(), u8l(1))), expr_stmt(n())]), u8l(1))),
     ]
 }
 
@@ -44,6 +61,26 @@ pub fn eb_bool() -> Vec<(&'static str, Expr)> {
         ("{n=n+1;n>3}", block(vec![assign("n", vec![], bin(BinOp::Add, n(), u8l(1))), expr_stmt(bin(BinOp::Gt, n(), u8l(3)))])),
         ("{m^=1;b}", block(vec![op_assign("m", vec![], BinOp::BitXor, u8l(1)), expr_stmt(var("b"))])),
         ("{m=m/n;m<n}", block(vec![assign("m", vec![], bin(BinOp::Div, m(), n())), expr_stmt(bin(BinOp::Lt, m(), n()))])),
+        (
+            "if n>m{n=n+1;true}else{n=n+2;false}",
+            if_(
+                bin(BinOp::Gt, n(), m()),
+                vec![assign("n", vec![], bin(BinOp::Add, n(), u8l(1))), expr_stmt(lit_bool(true))],
+                Some(vec![assign("n", vec![], bin(BinOp::Add, n(), u8l(2))), expr_stmt(lit_bool(false))]),
+            ),
+        ),
+        (
+            "match n{0=>{m^=1;true},_=>{n^=1;m>3}}",
+            match_(
+                n(),
+                vec![
+                    (Pat::Int(0, Some(IntTy::U8)), block(vec![op_assign("m", vec![], BinOp::BitXor, u8l(1)), expr_stmt(lit_bool(true))])),
+                    (Pat::Var("_".into()), block(vec![op_assign("n", vec![], BinOp::BitXor, u8l(1)), expr_stmt(bin(BinOp::Gt, m(), u8l(3)))])),
+                ],
+            ),
+        ),
+        ("!{n=n+1;n>3}", un(UnOp::Not, block(vec![assign("n", vec![], bin(BinOp::Add, n(), u8l(1))), expr_stmt(bin(BinOp::Gt, n(), u8l(3)))]))),
+        ("{n=n+1;n}>3", bin(BinOp::Gt, block(vec![assign("n", vec![], bin(BinOp::Add, n(), u8l(1))), expr_stmt(n())]), u8l(3))),
     ]
 }
 
